@@ -304,7 +304,7 @@ def _run(case, work, loop):
             elif kind == 'request-body':
                 f = {'at': 'request-body', 'after': case['after']}
             elif kind == 'response-body':
-                has_body = op in ('download', 'download_stream') or (bk == 's3c' and op == 'list')
+                has_body = (op in ('download', 'download_stream') or (bk == 's3c' and op == 'list')) and case.get('target', 'main') == 'main'
                 # only these answers are streamed in pieces by the fakes; elsewhere the drop happens before the response
                 f = {'at': 'response-body', 'after': case['after']} if has_body else {'at': 'before-response'}
             elif kind.startswith('status'):
